@@ -21,7 +21,7 @@ def values(ctx):
     vs = []
     for n in (0, 1, 2, 4094, 4095, 4096, 4097, 4098, 8190, 8191, 8192, 8193, 8194):
         vs.append(bytes(rng.randrange(256) for _ in range(n)))
-    vs += [b"\r\n", b"\r", b"\n", b"END\r\n", b"a\r\nEND\r\n", b"VALUE k 0 1\r\nx\r\nEND\r\n", b"x" * 4094 + b"\r\n", b"\r\n" * 2048,
+    vs += [b"abc\r", b"\r\r", b"x\r\r\r", b"tail\r\n\r", b"\r\n", b"\r", b"\n", b"END\r\n", b"a\r\nEND\r\n", b"VALUE k 0 1\r\nx\r\nEND\r\n", b"x" * 4094 + b"\r\n", b"\r\n" * 2048,
            b"STORED\r\n", b"\x00" * 100, bytes(range(256))]
     vs += [bytes(rng.randrange(256) for _ in range(65536))]
     if ctx.thorough:
@@ -45,6 +45,15 @@ def chunker(rng, mode):
             return [reply]
         if mode == "bytes" and len(reply) < 3000:
             return [reply[i:i + 1] for i in range(len(reply))]
+        if mode == "crlf":
+            # cut exactly between every CR and LF (and nowhere else)
+            out, start = [], 0
+            for i in range(1, len(reply)):
+                if reply[i - 1:i] == b"\r" and reply[i:i + 1] == b"\n":
+                    out.append(reply[start:i])
+                    start = i
+            out.append(reply[start:])
+            return [x for x in out if x]
         out, i = [], 0
         while i < len(reply):
             n = rng.choice([1, 2, 3, 7, 100, 4095, 4096, 4097, 10000])
@@ -87,7 +96,7 @@ def main(argv):
         for si, st in enumerate(stores):
             pfx = [b"", b"ns:", b"p" * 200][(vi + si) % 3]
             key = ["k", b"kb", "key-" + "x" * 40][(vi + 2 * si) % 3]
-            mode = ["rand", "one", "bytes"][(vi + si) % 3]
+            mode = ["rand", "one", "bytes", "crlf"][(vi + si) % 4]
             srv, world, c = mk(pfx=pfx, mode=mode)
             cfg = cfg_tok(dnr=False, pfx=pfx)
             hist = []
